@@ -136,4 +136,14 @@ theorem Inv_remove (name : Name) (e : Elem) (h : e.Inv = true) :
 theorem Inv_of_children_eq {e e' : Elem} (hc : e'.children = e.children) (h : e.Inv = true) : e'.Inv = true := by
   rw [Inv_iff] at h ⊢; rw [hc]; exact h
 
+/-- the element reached by `get_child` along a path of a tree with the invariant has the invariant -/
+theorem Inv_elemAt : ∀ (path : List Name) (t e : Elem), t.Inv = true → elemAt path t = some e → e.Inv = true
+  | [], t, e, h, he => by simp only [elemAt, Option.some.injEq] at he; rw [← he]; exact h
+  | p :: ps, t, e, h, he => by
+    simp only [elemAt] at he
+    split at he
+    · rename_i nec c hg
+      exact Inv_elemAt ps c e (((Inv_iff t).mp h).2 (nec, c) (getChild_some_mem hg)) he
+    · cases he
+
 end Xsg
